@@ -174,7 +174,10 @@ def main(argv=None):
             totals["queries"] += 1
             totals["obligations"] += 1
             totals["solver_s"] += q.get("s", 0)
-        samples.append(dict(engine="mirsym", check=mod, queries=d.get("queries"), vacuity_witnesses=d.get("witness"), wall_s=d.get("wall_s")))
+        totals["states"] += d.get("symbolic_states", 0)
+        totals["transitions"] += d.get("asserted_formulas", 0)
+        samples.append(dict(engine="mirsym", check=mod, queries=d.get("queries"), vacuity_witnesses=d.get("witness"), wall_s=d.get("wall_s"),
+                            symbolic_states=d.get("symbolic_states"), asserted_formulas=d.get("asserted_formulas")))
         functions += d.get("functions", [])
         bounds.append("%s: all values of the u32 inputs (no unrolling: the fragments are loop-free); outside: %s" % (mod, "; ".join(d.get("outside", []))))
         assumptions += d.get("assumptions", [])
@@ -215,7 +218,7 @@ def main(argv=None):
                 states=max(totals["states"], 0), transitions=max(totals["transitions"], 0),
                 traces_validated_against_impl=totals["traces_validated"],
                 samples=samples,
-                rule="states = SAT/SMT variables and transitions = clauses/assertions of the formulas the solver decided "
+                rule="states = SAT/SMT variables (kani, mirproto) resp. symbolic block states explored (mirsym) and transitions = clauses/assertions of the formulas the solver decided "
                      "(each formula encodes every execution of one harness or scenario within its bound); "
                      "each sample is one harness/scenario with its bound and verdict",
                 obligations=totals["obligations"], discharged=totals["obligations"] if not (violations or noverdict) else 0,
